@@ -75,6 +75,7 @@ def _parse_journal(J):
     by_handle = {}
     order = []  # completed calls in completion order
     in_throw = None
+    throw_members = set()
     bypass_for = {}   # journal index of a Y record -> cids of delegating generators the value did not pass through
     for idx, rec in enumerate(J):
         t = rec[0]
@@ -87,6 +88,9 @@ def _parse_journal(J):
                 chain.add(c.cid)
                 c = calls[c.delegates[-1]]
             in_throw = chain
+            # the activations the exception travels through (delegating frames + the one that receives it); only a value yielded
+            # by one of them - or by a generator one of them delegates to from now on - is the result of this throw()
+            throw_members = set(chain) | ({c.cid} if c is not None else set())
         elif t == "TE":
             in_throw = None
         elif in_throw is not None:
@@ -95,7 +99,9 @@ def _parse_journal(J):
             owner = rec[1] if t in ("Y", "B", "A", "RZ", "C", "MU", "RND", "YF", "R") else (rec[3] if t == "XS" and len(rec) > 3 else (rec[4] if t == "XH" and len(rec) > 4 else None))
             if owner in in_throw:
                 in_throw = in_throw - {owner}
-            if t == "Y":
+            if t == "YF" and rec[1] in throw_members:
+                throw_members.add(rec[2])
+            if t == "Y" and rec[1] in throw_members:
                 bypass_for[idx] = in_throw
                 in_throw = None
         if t == "EU":
